@@ -39,6 +39,8 @@ func checkCiscoConv(p *Prog, r *Report, prop, flavour string) {
 		r.rule("R08.k", "IOS numbering constants agree (see C08).")
 		ruleIOSNumbering(p, r)
 	}
+	r.rule("R08.m", "Configuration-mode bookkeeping (see C08): every emission goes through the helpers that maintain the mode.")
+	ruleConfMode(p, r)
 	ruleJoinedTransactions(p, r)
 	ruleSinglePass(p, r)
 	r.Trusted = []string{"go/ssa, call graph", "the audited rows of tables/guards.tsv, sticky_audit.tsv, fresh_audit.tsv, phases.tsv, normaliser_consts.tsv are the intended decisions (each row carries its reason)"}
